@@ -31,6 +31,7 @@ class C17(Prop):
         res = []
         for h in obs["histories"]:
             res += A.oracle_c17(h)
+        res += A.oracle_denials(obs["histories"])
         return res
 
     def model_check(self, ctx, obs):
